@@ -84,6 +84,11 @@ def Schema.types : Schema → List TypeDef
   | .type t :: rest => t :: Schema.types rest
   | _ :: rest => Schema.types rest
 
+def Schema.directives : Schema → List DirectiveDef
+  | [] => []
+  | .directive d :: rest => d :: Schema.directives rest
+  | _ :: rest => Schema.directives rest
+
 def Schema.typeMapGet (s : Schema) (n : Name) : Option TypeDef :=
   s.types.reverse.find? (·.name == n)
 
